@@ -24,11 +24,15 @@ func LocalStore(name string) M {
 // StoreValues: every site matching m stores one of the allowed canonical values.
 func (r *Report) StoreValues(rule string, u *Unit, m M, allowed []string, min int) {
 	sites := u.Match(m)
-	r.Min(rule, len(sites), max(min, 1), u.Name+": "+m.Desc())
+	if min > 0 {
+		r.Min(rule, len(sites), min, u.Name+": "+m.Desc())
+	}
 	for _, s := range sites {
-		got := "<tuple or inc/dec>"
+		got := "<inc/dec>"
 		if s.RHS != nil {
 			got = u.C.Term(s.RHS)
+		} else if s.Tuple != nil {
+			got = fmt.Sprintf("TUPLE %s #%d", u.C.Term(s.Tuple), s.TupleIdx)
 		}
 		ok := false
 		for _, a := range allowed {
